@@ -86,6 +86,9 @@ var interpFuncs = map[string]bool{
 	"(syscall.WaitStatus).Signal":     true,
 	"(syscall.WaitStatus).Stopped":    true,
 	"strings.Repeat":                  false,
+	"(*crypto/rsa.PrivateKey).Public":     true,
+	"(*crypto/ecdsa.PrivateKey).Public":   true,
+	"(crypto/ed25519.PrivateKey).Public":  true,
 }
 
 func (w *World) interpretable(pkgPath, full string) bool {
